@@ -8,7 +8,6 @@ INVARIANT WrapMeets
 INVARIANT WrapLength
 INVARIANT Symmetric
 INVARIANT KernelLaws
-INVARIANT LazyAccepts
 INVARIANT LazyEnds
 INVARIANT LazyIsShort
 INVARIANT LazyPatternsRestart
